@@ -51,6 +51,16 @@ func genWorkload() *rapid.Generator[[]wlStep] {
 		if rapid.IntRange(0, 3).Draw(t, "releaseEarly") > 0 {
 			out[0].Op = "release"
 		}
+		if envInt("VERIF_C12_RECONNECT", 0) != 0 {
+			// real-time states: the watch stream is dropped and the watcher has
+			// reconnected (after the library's 1 s retry delay) before the trigger fires
+			if len(out) > 7 {
+				out = out[:7]
+			}
+			out[0].Op = "release"
+			pos := rapid.IntRange(1, len(out)).Draw(t, "reconnectAt")
+			out = append(out[:pos], append([]wlStep{{Op: "reconnectWait", A: rapid.IntRange(0, 3).Draw(t, "connErrs")}}, out[pos:]...)...)
+		}
 		return out
 	})
 }
@@ -134,6 +144,23 @@ func c12Apply(w *world, st *c12State, s wlStep) {
 		n := w.api.closeSessions()
 		w.h("watch streams closed by the server (%d); reconnect timer pending", n)
 		st.forced["mid-reconnect"] = true
+	case "reconnectWait":
+		if !w.rootReady {
+			return
+		}
+		ce := 0
+		if s.A == 0 {
+			ce = 1
+		}
+		w.api.mu.Lock()
+		w.api.connErrs += ce
+		w.api.mu.Unlock()
+		n := w.api.closeSessions()
+		time.Sleep(time.Duration(1+ce)*time.Second + 80*time.Millisecond)
+		w.h("watch streams closed by the server (%d), %d connect errors, then waited for the reconnect", n, ce)
+		if w.api.liveSessions() > 0 {
+			st.forced["after-reconnect"] = true
+		}
 	case "relistPending":
 		if !w.cfg.gatedRelist || !w.rootReady || st.pendingRelist != nil {
 			return
@@ -396,7 +423,13 @@ func TestC12_ShutdownPoints(t *testing.T) {
 			calls[i] = [2]int{rapid.IntRange(0, 20).Draw(t, "callnode"), rapid.IntRange(0, 99).Draw(t, "call")}
 		}
 		forced := map[string]bool{}
-		for k := 0; k <= len(steps); k++ {
+		first := 0
+		for i, s := range steps {
+			if s.Op == "reconnectWait" {
+				first = i + 1 // the points before it are covered by the ordinary workloads
+			}
+		}
+		for k := first; k <= len(steps); k++ {
 			for f := range c12RunPoint(t, steps, k, trigger, gated, pseed+uint64(k), calls) {
 				forced[f] = true
 			}
@@ -409,7 +442,7 @@ func TestC12_ShutdownPoints(t *testing.T) {
 		for i, s := range steps {
 			desc[i] = s.String()
 		}
-		nt := forced["mid-relist"] || forced["mid-reconnect"] || forced["concurrent-close"] || forced["not-yet-ready"] && forced["api-calls-racing"]
+		nt := forced["mid-relist"] || forced["mid-reconnect"] || forced["after-reconnect"] || forced["concurrent-close"] || forced["not-yet-ready"] && forced["api-calls-racing"]
 		statCase("C12", hashString(trigger+fmt.Sprint(gated)+strings.Join(desc, ";")), nt, func() interface{} {
 			return map[string]interface{}{"workload": desc, "trigger": trigger, "gated_relists": gated, "shutdown_points": len(steps) + 1, "racing_api_calls": ncalls}
 		}, append(fl, "trigger_"+trigger)...)
